@@ -286,7 +286,9 @@ def generate(rng, cfg):
         for name in rng.sample(["DTSTART", "END", "DURATION"], rng.randint(1, 2)):
             if name not in props and not any(x[0] == name for x in extra):
                 bad.append([name, rng.choice(["20240506T1100", "1D", "garbage", "2024-05-06", ""])])
-    trace = [[0, "new", {"cls": cls, "how": how, "props": props, "extra": extra, "bad": bad}]]
+    # properties may carry parameters of their own (X-REASON=planned): they say nothing about the value
+    xp = [n for n in props if rng.random() < 0.25] if how == "parse" else []
+    trace = [[0, "new", {"cls": cls, "how": how, "props": props, "extra": extra, "bad": bad, "xp": xp}]]
     m = Model(cls)
     m.provider = provider
     for k, v in props.items():
@@ -333,7 +335,7 @@ def generate(rng, cfg):
         elif op == "add":
             name = rng.choice(names)
             v = rng.choice(DURS_API) if name == "DURATION" else _val(rng, aware)
-            step = [0, "add", {"name": name, "v": v}]
+            step = [0, "add", {"name": name, "v": v, "xp": rng.random() < 0.25}]
             m.add(name, v)
         else:
             name = rng.choice(names)
@@ -367,14 +369,17 @@ def abstract_sig(run):
 # ---------------------------------------------------------------------------
 # execution
 
-def _text_for(cls, props, extra=(), bad=()):
+def _text_for(cls, props, extra=(), bad=(), xp=()):
     kind = {"Event": "VEVENT", "Todo": "VTODO", "Journal": "VJOURNAL"}[cls]
     lines = [f"BEGIN:{kind}"]
     # lines of the three properties that cannot be decoded: a VEVENT drops them (and records that it did)
     lines += [f"{endname(cls) if n == 'END' else n}:{text}" for n, text in bad]
     for name, v in list(props.items()) + [tuple(x) for x in extra]:
         pname = endname(cls) if name == "END" else name
-        lines.append(_prop_line(pname, v))
+        line = _prop_line(pname, v)
+        if name in xp:
+            line = line.replace(pname, pname + ";X-REASON=planned", 1)
+        lines.append(line)
     lines.append(f"END:{kind}")
     return "\r\n".join(lines) + "\r\n"
 
@@ -451,7 +456,9 @@ def execute(run, res):
             if m.provider == "pytz":
                 res.probe("pytz_provider_selected")
             if a["how"] == "parse":
-                text = _text_for(cls, a["props"], a.get("extra", ()), a.get("bad", ()))
+                text = _text_for(cls, a["props"], a.get("extra", ()), a.get("bad", ()), a.get("xp", ()))
+                if a.get("xp"):
+                    res.probe("property_with_own_parameter")
                 if a.get("bad"):
                     res.probe("parsed_with_dropped_lines")
                 try:
@@ -533,7 +540,11 @@ def execute(run, res):
             if cls == "Journal" and a["name"] != "DTSTART":
                 continue
             m.add(a["name"], a["v"])
-            comp.add(real(a["name"]), to_py(a["v"]))
+            if a.get("xp"):
+                comp.add(real(a["name"]), to_py(a["v"]), parameters={"X-REASON": "planned"})
+                res.probe("property_with_own_parameter")
+            else:
+                comp.add(real(a["name"]), to_py(a["v"]))
         elif op == "setitem":
             if cls == "Journal" and a["name"] != "DTSTART":
                 continue
